@@ -30,9 +30,9 @@ text = f'''## 12. Seeded changes (mutation campaign)
 
 Fresh sub-agents were given only the text of one property and a scratch git worktree of /repo under /tmp (nothing from
 /verif), and asked for realistic changes that break the property, keep the package importable and the existing tests
-green, and need something specific to manifest.  Four waves: two changes per property (19 agents), then three changes
-each in a different function for eleven, eight and nine properties (later agents were told which *sites* had been used,
-nothing else).  Every change was confirmed by me before it was kept (`tools_confirm_seed.sh`: demo passes on the clean
+green, and need something specific to manifest.  Five waves: two changes per property (19 agents), then three changes
+each in a different function for eleven, eight, nine and seven properties (later agents were told which *sites* had been
+used, nothing else; the last wave was time-boxed to an hour per agent).  Every change was confirmed by me before it was kept (`tools_confirm_seed.sh`: demo passes on the clean
 tree and fails with the patch, in the agent's worktree; the named package tests pass with the patch in a scratch export of
 /repo HEAD under /var/tmp; the property's check is run with `FA_REPO` pointing at that export; the export is removed).
 Nothing was ever applied to /repo itself.  Each kept change lives in `/verif/seeded/<id>/` (`patch.diff`, `demo.py`, the
